@@ -14,7 +14,7 @@ PROP = "C04"
 TECHNIQUE = (
     "the whole random decision tree of depth-limited creation is enumerated (E1, no deviation bound) and the set of "
     "produced programs is compared, in both directions, with an independent recursive enumeration of the bounded "
-    "language L(G,d); full creation against Full(G,d); PI-grow against inclusion"
+    "language L(G,d); full creation against Full(G,d); PI-grow against inclusion; also after sibling grammars over the same class objects were extracted"
 )
 RULE = (
     "unit = finite-choice grammar x depth d (minimum .. while |L(G,d)| <= cap) x method (grow, full via FullInitializer, "
